@@ -369,15 +369,37 @@ pub fn run_exe(exe: &std::path::Path, args: &[String], timeout: std::time::Durat
         let n = s.len();
         s[n.saturating_sub(3000)..].to_string()
     });
+    // A child is given up (and reported as hung) when
+    //  - the wall-clock limit has passed AND it has not used any CPU for 30 s
+    //    (blocked for good: a deadlock below the scheduler), or
+    //  - it has used more CPU than `timeout` x hardware threads (spinning), or
+    //  - ten times the wall-clock limit has passed.
+    // A child that is merely slow because the machine is loaded keeps using
+    // CPU and is not mistaken for a hang.
     let start = Instant::now();
+    let pid = ch.id();
+    let cpu_budget = timeout.as_secs_f64() * threads().max(1) as f64;
+    let mut last_cpu = 0.0f64;
+    let mut last_progress = Instant::now();
+    let mut last_probe = Instant::now();
     let status = loop {
         match ch.try_wait() {
             Ok(Some(st)) => break Some(st),
             Ok(None) => {
-                if start.elapsed() > timeout {
-                    let _ = ch.kill();
-                    let _ = ch.wait();
-                    break None;
+                if last_probe.elapsed() > std::time::Duration::from_secs(1) {
+                    last_probe = Instant::now();
+                    let cpu = cpu_seconds(pid).unwrap_or(last_cpu);
+                    if cpu > last_cpu + 0.05 {
+                        last_cpu = cpu;
+                        last_progress = Instant::now();
+                    }
+                    let wall = start.elapsed();
+                    let stalled = last_progress.elapsed() > std::time::Duration::from_secs(30);
+                    if (wall > timeout && stalled) || last_cpu > cpu_budget || wall > timeout * 10 {
+                        let _ = ch.kill();
+                        let _ = ch.wait();
+                        break None;
+                    }
                 }
                 std::thread::sleep(std::time::Duration::from_millis(20));
             }
@@ -396,6 +418,18 @@ pub fn run_exe(exe: &std::path::Path, args: &[String], timeout: std::time::Durat
         "child exited with {st} without a result; stderr tail: {}",
         err.lines().rev().take(12).collect::<Vec<_>>().into_iter().rev().collect::<Vec<_>>().join(" | ")
     ))
+}
+
+/// user + system CPU seconds used so far by process `pid` (all its threads)
+fn cpu_seconds(pid: u32) -> Option<f64> {
+    let s = std::fs::read_to_string(format!("/proc/{pid}/stat")).ok()?;
+    // the command name (field 2) may contain spaces: split after its ')'
+    let rest = &s[s.rfind(')')? + 1..];
+    let f: Vec<&str> = rest.split_whitespace().collect();
+    // rest[0] is field 3 (state); utime / stime are fields 14 / 15
+    let ut: f64 = f.get(11)?.parse().ok()?;
+    let st: f64 = f.get(12)?.parse().ok()?;
+    Some((ut + st) / 100.0)
 }
 
 pub fn emit_child_result(v: &Value) {
